@@ -741,7 +741,9 @@ func run(r *mon.Run) {
 				x, _ := s.Build(nil)
 				return x
 			}
-			for _, st := range []string{"200", "100", "999", "000", "010", "077", "089", "099", "008", "007", "090", "0b1", "0o7", "0_1", "+20", "-07", "+00", "-00", "2 0", " 20", "20 ", "20", "2", "", "2000", "20x", "x20", "0x1", "1e2", "2.0", "\uff12\uff10\uff10", "20\n", "\t20", "2\x000"} {
+			for _, st := range []string{"200", "100", "999", "000", "010", "077", "089", "099", "008", "007", "090", "0b1", "0o7", "0_1", "+20", "-07", "+00", "-00", "2 0", " 20", "20 ", "20", "2", "", "2000", "20x", "x20", "0x1", "1e2", "2.0", "\uff12\uff10\uff10", "20\n", "\t20", "2\x000",
+				// three digits followed by something else (a status line's reason phrase, more digits than any integer holds)
+				"200 ", "200x", "200 OKAY", "200\n", "200.0", "2000x", "200\x00", "999999999999999999999", "200200200200200200200200"} {
 				judge(r, mk(st, hdrs("content-type", "text/plain")), "status-spelling", fmt.Sprintf("%s/%q", ver, st), st == "200" || st == "100" || st == "999" || st == "000", 7)
 			}
 			variants := map[string][]rbundle.BHeader{
